@@ -5,7 +5,8 @@
 //! at statement locations, pause(thread?), continue, step in/over/out(thread?), optionally
 //! user writes queued through the debugger.
 //!
-//! Two drivers (`c17/driver.rs`):
+//! Three searches (`c17/driver.rs`; `hook` replays the reference trace as direct calls of
+//! `DebugControl`'s statement hook with gates between any two hook calls):
 //! * lock-step: commands are issued only before the cycle thread starts and in reaction to
 //!   a stop notification, so the run is deterministic and every stop is predicted exactly
 //!   from the reference evaluator's executed-statement trace;
@@ -41,12 +42,15 @@ pub fn info() -> PropertyInfo {
     PropertyInfo {
         id: "C17",
         level: "exploration",
-        rule: "cases = stgen programs (strict dial, <= 18 statements per POU, nested FUNCTION/FB calls, FOR/WHILE/REPEAT) instantiated 1-3 times over 0-3 tasks + background, 1-3 input cycles repeated 1-6 times, x command scripts over {set/clear breakpoints at statement locations, pause(thread?), pause_entry, continue, step in/over/out(thread?), user writes}; lock-step search: commands only before the start, between two cycles (the cycle thread waits at the boundary) and in answer to a stop notification, every stop predicted from the reference statement trace; racy search: a second thread fires commands at generated real-time points, 50-200 repetitions per script; non-trivial = lock-step script with >= 1 step command issued at call depth >= 1 or from a pause/entry stop, or racy script in which a pause stop and a breakpoint stop occurred in one repetition or a pause overtook a resume; distinct by SHA-256 of (source, script)",
+        rule: "cases = stgen programs (strict dial, <= 18 statements per POU, nested FUNCTION/FB calls, FOR/WHILE/REPEAT, 0-4 labelled statements) instantiated 1-3 times over 0-3 tasks + background, 1-3 input cycles repeated 1-6 times, x command scripts over {set/clear breakpoints at statement locations, pause(thread?), pause_entry, continue, step in/over/out(thread?), user writes}; lock-step search (real runtime): commands only before the start, between two cycles and in answer to a stop notification, every stop predicted from the reference statement trace; hook search: the reference trace replayed as calls of DebugControl's statement hook, commands at gates between any two hook calls; racy search: a second thread fires commands at generated real-time points, 50-200 repetitions per script; non-trivial = lock-step/hook script with >= 1 step command issued at call depth >= 1, from a pause/entry stop, or while running between a call statement's hook and the callee's first hook, or racy script in which a pause stop and a breakpoint stop occurred in one repetition or a pause overtook a resume; distinct by SHA-256 of (source, script)",
         assumptions: &[
             "stepping is per debugger thread (task): 'the very next statement' after step-in and the depth clause of step-over/step-out refer to the statements of the stepped thread (DAP thread model; what the hook implements with target_thread)",
             "step-over stops at the first later statement of the stepped thread at call depth <= d, step-out at depth <= d-1 (d > 0) or <= 0 (d = 0), unless a breakpoint stop comes first (StepKind documentation in debug/control.rs); the property's own clause (never deeper than d) is reported separately",
             "a statement 'carries a breakpoint' when its source range overlaps the breakpoint's range (breakpoints.rs: overlap matching; a breakpoint on a nested statement also stops at the enclosing IF/CASE/loop statement); empty statements have no hook call",
             "a pause request can be placed deterministically only while the debugger runs (pause while stopped is ignored by DebugControl): before the start and at cycle boundaries; the step clauses hold for every kind of origin stop (breakpoint, step, pause, entry)",
+            "a step issued while the program runs: only the depth clause is asserted, with origin depth = depth of the last statement of the stepped thread the hook has seen when the command takes effect (what apply_action records); where it stops exactly is the code's arming rule and not asserted",
+            "`L: stmt` is a Label statement around the inner one and the hook fires for both at the same depth (two statement boundaries, modelled like a compound statement; labels are added to the printed source, no JMP)",
+            "hook search: DebugControl is driven through the public DebugHook::on_statement with the hook-call sequence of the reference trace (set_current_thread at every thread change); no interpreter underneath, so no transparency check there",
             "a user write queued while stopped in cycle k must have exactly the effect of the same whole-variable write applied between cycle k and k+1 of an undebugged run (documented contract of DebugControl::enqueue_*_write)",
             "no-wedge is judged by progress: a run counts as wedged when, while the controller waits for the next stop notification or the end of the run, the progress token (cycles completed, last statement location and call depth seen by the hook) does not move and the cycle thread is blocked (state S in /proc) at 150 consecutive samples 100 ms apart, or - last resort - the token does not move for 180 s (normal: < 5 ms); wedged twice in a row for one script = violation, once = inconclusive",
             "racy search: the OS scheduler chooses the interleaving; spin/yield/sleep delays perturb it but do not control it",
@@ -65,7 +69,7 @@ pub struct Case {
     pub prog_tape: Tape,
     pub trace_tape: Tape,
     pub script_tape: Tape,
-    /// "lock" | "racy"
+    /// "lock" | "racy" | "hook"
     pub mode: String,
     #[serde(default)]
     pub program: Option<Program>,
@@ -107,6 +111,8 @@ pub fn materialize(mut c: Case) -> Case {
     let cfg = TaskCfg::generate(&mut r, !g.program.globals.is_empty(), if racy { 6 } else { 3 });
     if racy {
         c.racy = Some(RacyScript::generate(&mut r, max_reps()));
+    } else if c.mode == "hook" {
+        c.lock = Some(LockScript::generate_hook(&mut r));
     } else {
         c.lock = Some(LockScript::generate(&mut r));
     }
@@ -236,6 +242,7 @@ fn plan_lock(prog: &Program, trace: &Trace, cfg: &TaskCfg, script: &LockScript) 
     let resolved = driver::resolve_lock(&first, script);
     if script.reactions.iter().all(|r| r.write.is_none())
         || script.between.iter().any(|c| !c.is_empty())
+        || !script.gates.is_empty()
         || script.reactions.iter().any(|r| r.on_pause.is_some())
         || script.entry
     {
@@ -364,6 +371,9 @@ fn world_labels(w: &World, probe: &mut Probe) {
     if w.faulted {
         probe.label("program_faults");
     }
+    if w.pos.iter().any(|p| p.stmt >= world::LABEL_BASE) {
+        probe.label("labelled_statement_executed");
+    }
     probe.label(format!(
         "trace_positions={}",
         match w.pos.len() {
@@ -386,6 +396,16 @@ fn skip_label(l: &str, probe: &mut Probe) {
 }
 
 fn check_lock(case: &Case, probe: &mut Probe) -> Result<(), String> {
+    check_controlled(case, probe, driver::Engine::Runtime)
+}
+
+/// Hook-level search: the reference trace is replayed as a sequence of statement-hook calls
+/// on `DebugControl` (no runtime underneath), commands at gates between any two hook calls.
+fn check_hook(case: &Case, probe: &mut Probe) -> Result<(), String> {
+    check_controlled(case, probe, driver::Engine::Hook)
+}
+
+fn check_controlled(case: &Case, probe: &mut Probe, engine: driver::Engine) -> Result<(), String> {
     let c = parts(case);
     let (prog, trace, cfg) = (
         c.program.as_ref().unwrap(),
@@ -409,10 +429,14 @@ fn check_lock(case: &Case, probe: &mut Probe) -> Result<(), String> {
     };
     RAN.fetch_add(1, Ordering::Relaxed);
     let w = &plan.world;
-    let fail = |e: String| -> String { format!("[lock-step] {e}\n--- source\n{}", w.source) };
+    let tag = match engine {
+        driver::Engine::Runtime => "lock-step",
+        driver::Engine::Hook => "hook-level",
+    };
+    let fail = |e: String| -> String { format!("[{tag}] {e}\n--- source\n{}", w.source) };
     let mut first_wedge: Option<String> = None;
     for _attempt in 0..2 {
-        match driver::run_lockstep(w, script, &plan.resolved, &plan.writes).map_err(&fail)? {
+        match driver::run_lockstep(w, script, &plan.resolved, &plan.writes, engine).map_err(&fail)? {
             Outcome::Done(s) => {
                 if let Some(fw) = first_wedge {
                     SINGLE_WEDGES.lock().unwrap().push(fw);
@@ -420,7 +444,10 @@ fn check_lock(case: &Case, probe: &mut Probe) -> Result<(), String> {
                 }
                 world_labels(w, probe);
                 for l in s.labels {
-                    probe.label(l);
+                    probe.label(match engine {
+                        driver::Engine::Runtime => l,
+                        driver::Engine::Hook => l.replacen("lock:", "hook:", 1),
+                    });
                 }
                 if s.nontrivial {
                     let mut key = w.source.as_bytes().to_vec();
@@ -430,7 +457,7 @@ fn check_lock(case: &Case, probe: &mut Probe) -> Result<(), String> {
                     probe.nontrivial(&key);
                     if s.stops >= 4 {
                         probe.sample(json!({
-                            "driver": "lock-step",
+                            "driver": tag,
                             "source": w.source,
                             "script": script,
                             "stops": s.stops,
@@ -642,10 +669,10 @@ pub fn helper(args: &[String]) -> Option<i32> {
             crate::engine::install_quiet_panic_hook();
             let seed: u64 = args.get(1).and_then(|s| s.parse().ok()).unwrap_or(1);
             let n: usize = args.get(2).and_then(|s| s.parse().ok()).unwrap_or(1);
-            let mode: &'static str = if args.get(3).map(|s| s.as_str()) == Some("racy") {
-                "racy"
-            } else {
-                "lock"
+            let mode: &'static str = match args.get(3).map(|s| s.as_str()) {
+                Some("racy") => "racy",
+                Some("hook") => "hook",
+                _ => "lock",
             };
             let quiet = args.get(4).is_some();
             let mut runner = proptest::test_runner::TestRunner::new_with_rng(
@@ -666,10 +693,10 @@ pub fn helper(args: &[String]) -> Option<i32> {
                 let c = strat.new_tree(&mut runner).ok()?.current();
                 let mut probe = Probe::default();
                 let t0 = std::time::Instant::now();
-                let r = if mode == "racy" {
-                    check_racy(&c, &mut probe)
-                } else {
-                    check_lock(&c, &mut probe)
+                let r = match mode {
+                    "racy" => check_racy(&c, &mut probe),
+                    "hook" => check_hook(&c, &mut probe),
+                    _ => check_lock(&c, &mut probe),
                 };
                 if !quiet {
                     println!("(* ---- case {i} ---- *)\n{}", c.source);
@@ -692,7 +719,7 @@ pub fn helper(args: &[String]) -> Option<i32> {
                         if let Ok(dir) = std::env::var("C17_DEBUG_DIR") {
                             let _ = std::fs::write(
                                 format!("{dir}/fail-{seed}-{i}.json"),
-                                serde_json::to_string_pretty(&json!({"property":"C17","search": if mode=="racy" {"racy"} else {"lockstep"},"expect":"pass","message": e.lines().next().unwrap_or(""),"case": c})).unwrap(),
+                                serde_json::to_string_pretty(&json!({"property":"C17","search": match mode {"racy" => "racy", "hook" => "hook", _ => "lockstep"},"expect":"pass","message": e.lines().next().unwrap_or(""),"case": c})).unwrap(),
                             );
                         }
                     }
@@ -728,6 +755,12 @@ fn run(ctx: &mut RunCtx) {
         case_strategy("lock"),
         tier.pick(3_000, 60_000),
         check_lock,
+    );
+    ctx.search(
+        "hook",
+        case_strategy("hook"),
+        tier.pick(1_500, 30_000),
+        check_hook,
     );
     ctx.search("racy", case_strategy("racy"), tier.pick(200, 3_000), check_racy);
 
